@@ -1097,7 +1097,10 @@ def runCase (j : Json) : Json :=
   let (_, outs, _) := ops.foldl (fun (acc : World × Array Json × Nat) op =>
     let (w, outs, i) := acc
     let (w', o) := evalOp w i op
-    (trackLastErr w' op o, outs.push o, i + 1)) (({ tw := (arr! j "tw").toArray, ops := ops.toArray } : World), #[], 0)
+    -- an op during which the harness itself read LAST_ERROR (a retried set-up step) leaves the slot undetermined
+    let w'' := trackLastErr w' op o
+    let w'' := if ((w''.tw[i]?).bind fun t => getD? t "retried").isSome then { w'' with lastErr := none } else w''
+    (w'', outs.push o, i + 1)) (({ tw := (arr! j "tw").toArray, ops := ops.toArray } : World), #[], 0)
   .arr outs
 
 end Driver.C19
